@@ -18,13 +18,13 @@ import (
 
 const depth = 4
 
-var kinds = []string{"list", "info", "set-comment", "rename", "delete", "move", "move-dest", "new-folder", "alias", "alias-dest", "download", "download-folder",
+var kinds = []string{"create-then-rename", "create-then-modify", "create-then-delete", "list", "info", "set-comment", "rename", "delete", "move", "move-dest", "new-folder", "alias", "alias-dest", "download", "download-folder",
 	"upload", "upload-folder-target", "upload-folder-items", "new-user", "update-create", "update-rename", "update-delete", "set-user", "delete-user"}
 
 func init() {
 	core.Register(&core.Simple{
 		Id: "C07", Lvl: "exploration", Quick: 2100, Thorough: 80000, PerBatch: 350, Width: 175, Timeout: 2400,
-		RuleText: "each case builds a sandbox S/l1/l2/l3/l4/root with uniquely named canary files and directories at every level (including .info_root, .rsrc_root and root.incomplete next to the root, and canaries next to the accounts directory), then sends one file-touching or account request (21 kinds incl. the actual transfer for downloads/uploads and folder-upload item headers on the transfer connection) whose name / path items / new name / destination / item header / login carries a hostile component ('..', '.', '/', empty, absolute, a/../../b, NUL, 255-byte and longer, high bytes, more '..' than the sandbox is deep, count/length prefixes that disagree with the data, names aiming at a canary); oracle: the recursive snapshot (names, types, sizes, hashes, link targets) of everything outside the root (outside Users/ for account requests) is unchanged, no link inside the root points outside, and no canary token appears in any reply or transfer byte. distinct = (request kind, hostile class, placement); non-trivial = every case",
+		RuleText: "each case builds a sandbox S/l1/l2/l3/l4/root with uniquely named canary files and directories at every level (including .info_root, .rsrc_root and root.incomplete next to the root, and canaries next to the accounts directory), then sends one file-touching or account request (24 kinds incl. two-step account sequences on a hostile existing login, the actual transfer for downloads/uploads and folder-upload item headers on the transfer connection) whose name / path items / new name / destination / item header / login carries a hostile component ('..', '.', '/', empty, absolute, a/../../b, NUL, 255-byte and longer, high bytes, more '..' than the sandbox is deep, count/length prefixes that disagree with the data, names aiming at a canary); oracle: the recursive snapshot (names, types, sizes, hashes, link targets) of everything outside the root (outside Users/ for account requests) is unchanged, no link inside the root points outside, and no canary token appears in any reply or transfer byte. distinct = (request kind, hostile class, placement); non-trivial = every case",
 		Case: runCase,
 	})
 }
@@ -34,7 +34,7 @@ type hostile struct {
 	b     []byte
 }
 
-func hostiles(r *core.Rand, canaryName string) []hostile {
+func hostiles(r *core.Rand, canaryName, cfgCanary string) []hostile {
 	up := strings.Repeat("../", 1+r.Intn(depth+3))
 	return []hostile{
 		{"dotdot", []byte("..")},
@@ -57,6 +57,14 @@ func hostiles(r *core.Rand, canaryName string) []hostile {
 		{"backslash", []byte("..\\..\\" + canaryName)},
 		{"info-side", []byte(".info_root")},
 		{"trailing-up", []byte("dir/../..")},
+		{"dot-nul-dot", []byte(".\x00.")},
+		{"dot-nul-dot-path", []byte(".\x00./.\x00./.\x00./pwned-" + fmt.Sprint(r.Intn(1000)))},
+		{"dotdot-nul", []byte("..\x00")},
+		{"nul-dotdot", []byte("\x00../\x00../x")},
+		{"dot-space-dot", []byte(". ./. ./x")},
+		{"dotdot-space", []byte(".. /.. /x")},
+		{"up-config-canary", []byte("../" + cfgCanary)},
+		{"up-config-escaped", []byte("../escaped")},
 		{"benign", []byte("file.txt")},
 	}
 }
@@ -93,6 +101,7 @@ type sandbox struct {
 	srv     *fixture.Server
 	tokens  []string
 	canary  string // name of the canary file one level above the root
+	cfgCanary string // base name (without .yaml) of the canary file next to the accounts directory
 }
 
 func build(r *core.Rand) (*sandbox, error) {
@@ -132,7 +141,8 @@ func build(r *core.Rand) (*sandbox, error) {
 		}
 	}
 	// canaries next to the accounts directory
-	fixture.WriteFile(filepath.Join(srv.ConfigDir, tok()+".yaml"), "Login: canary\n"+tok())
+	sb.cfgCanary = tok()
+	fixture.WriteFile(filepath.Join(srv.ConfigDir, sb.cfgCanary+".yaml"), "Login: canary\n"+tok())
 	fixture.WriteFile(filepath.Join(srv.ConfigDir, "escaped.yaml"), tok())
 	return sb, nil
 }
@@ -163,10 +173,12 @@ func runCase(c *core.Case) {
 		c.Unsure("login: %v", err)
 		return
 	}
-	hs := hostiles(r, sb.canary)
+	hs := hostiles(r, sb.canary, sb.cfgCanary)
 	hp := hostilePaths(r, sb.canary)
-	h := core.Pick(r, hs)
-	p := core.Pick(r, hp)
+	// every (request kind, hostile class) pair is enumerated across the cases of a run; the rest is drawn from the seed
+	round := c.Index / len(kinds)
+	h := hs[round%len(hs)]
+	p := hp[round%len(hp)]
 	placement := "name"
 	nameField := func() []rc.Field {
 		if h.class == "benign" && r.Bool() {
@@ -214,8 +226,7 @@ func runCase(c *core.Case) {
 	case "rename":
 		// the hostile part is the NEW name
 		placement = "new-name"
-		nn := core.Pick(r, hs)
-		h = nn
+		nn := h
 		src := core.Pick(r, []string{"file.txt", "dir"})
 		desc = fmt.Sprintf("rename %s -> %q", src, nn.b)
 		call(207, rc.FS(201, src), rc.F(211, nn.b))
@@ -270,12 +281,13 @@ func runCase(c *core.Case) {
 		placement = "item-header"
 		rep, ok := call(213, rc.FS(201, "Incoming"), rc.F(202, rc.PathS("Uploads")), rc.F(108, rc.U32(50)), rc.F(220, rc.U16(2)))
 		if ref, has := rep.Get(107); ok && rep.Err == 0 && has {
-			hh := core.Pick(r, hs)
-			h = hh
+			hh := h
 			var items []xfer.UpItem
-			switch r.Intn(4) {
+			switch (round / len(hs)) % 5 {
 			case 0: // hostile bytes as the single path item of a file
 				items = []xfer.UpItem{{Path: [][]byte{clip(hh.b)}, Data: []byte("FOLDER-ITEM-ESCAPE")}}
+			case 4: // the hostile bytes as every path item, then a name
+				items = []xfer.UpItem{{Path: [][]byte{clip(hh.b), clip(hh.b), clip(hh.b), []byte("escaped-by-items.txt")}, Data: []byte("FOLDER-ITEM-ESCAPE")}}
 			case 1: // several '..' items then a name
 				items = []xfer.UpItem{{Path: [][]byte{[]byte(".."), []byte(".."), []byte(".."), []byte("escaped-by-items.txt")}, Data: []byte("FOLDER-ITEM-ESCAPE")}}
 				h.class = "items-dotdot"
@@ -293,6 +305,19 @@ func runCase(c *core.Case) {
 			_, t, _ := xfer.FolderUpload(srv, "10.7.0.1:2", ref, items)
 			t.Conn.CloseWrite()
 			t.WaitDone(xfer.TransferWatchdog)
+		}
+	case "create-then-rename", "create-then-modify", "create-then-delete":
+		// an account whose LOGIN is hostile is created first (that step is itself judged by the snapshot), then the
+		// existing hostile login is renamed / modified / deleted
+		accountZone, placement = true, "existing-login"
+		call(350, rc.F(105, rc.Obfuscate(h.b)), rc.FS(102, "X"), rc.F(106, rc.Obfuscate([]byte("p"))), rc.F(110, make([]byte, 8)))
+		switch kind {
+		case "create-then-rename":
+			call(349, rc.F(101, rc.SubFields(rc.F(101, rc.Obfuscate(h.b)), rc.F(105, rc.Obfuscate([]byte("plain-new-login"))), rc.FS(102, "Renamed"), rc.F(106, []byte{0}), rc.F(110, make([]byte, 8)))))
+		case "create-then-modify":
+			call(353, rc.F(105, rc.Obfuscate(h.b)), rc.FS(102, "Modified"), rc.F(110, make([]byte, 8)), rc.F(106, []byte{0}))
+		case "create-then-delete":
+			call(351, rc.F(105, rc.Obfuscate(h.b)))
 		}
 	case "new-user":
 		accountZone, placement = true, "login"
